@@ -285,6 +285,9 @@ RULE = ("timeout (timer firing) or cancel_run arriving at every quiescent point 
 from vmc.tables import _ROUND6 as _R6  # noqa: E402
 
 RULE += _R6["C31"]
+from vmc.tables import _ROUND8 as _R8  # noqa: E402
+
+RULE += _R8["C31"]
 
 
 
